@@ -65,6 +65,12 @@ checks.update({
    note="M8 (harness model of the label grammar and of case selection) trusted; flag sets that give one name to two bits can only be satisfied by rejection.",
    technique="exhaustive enumeration of masks x flag configurations and bounded exhaustive enumeration of switch shapes against a reference model"),
 })
+checks.update({
+ "C19": dict(level="exploration", ref="DESIGN.md §4 C19",
+   text="The process's only nondeterministic input, the hash seed drawn from getrandom(), is owned through an LD_PRELOAD seam; every command of a corpus that emphasises competing diagnostics (plus ordinary compile/decompile of every tool) is run as a fresh real-CLI subprocess under every seed of the grid, and exit status, stdout, stderr and output file must be byte-identical; the same seed is run twice per input to show the seam owns the variation, and a side probe reports how many iteration orders of a 3-key map the seeds realise.",
+   note="Assumes getrandom/getentropy is the only source of run-to-run variation; seeds are a proxy for hash-map iteration orders (exhaustive over the listed (input, seed) grid, not over all orders).",
+   technique="exhaustive enumeration of an (input x environment-answer) grid with the nondeterministic input (hash seed) under harness control"),
+})
 pending = {}
 def main():
     try:
